@@ -159,11 +159,15 @@ class SimilarityContainer(MetadataAware, typing.Sized):
     def from_csv(fh: typing.Union[str, typing.IO]):
         header = []
         records = []
+        in_header = True
 
         def store_header(row: str) -> bool:
-            if row[0] == '#':
+            # Only the leading lines are comments. A `#` further down starts a record (or continues a quoted field).
+            nonlocal in_header
+            if in_header and row[0] == '#':
                 header.append(row)
                 return False
+            in_header = False
             return True
 
         with open_text_io_handle_for_reading(fh) as handle:
